@@ -472,7 +472,8 @@ def programLoop : Nat → Nat → List Stmt → PM (List Stmt)
 
 end P
 
-def parseFuel (ntoks : Nat) : Nat := 4 * ntoks + 32
+/-- depth budget; `PlushProofs/Lib/ParserTotalProof.lean` proves it is never exhausted -/
+def parseFuel (ntoks : Nat) : Nat := 64 * ntoks + 32
 
 /-- `parser.Parse`: the program, or the accumulated errors. -/
 def parseToks (toks : Array Token) : Except PFail (Program × Array PErr) :=
